@@ -507,6 +507,8 @@ def main(argv) -> int:
         ensure_hypothesis()
         bootstrap()
         assert_repo()
+        from vlib import covfuzz
+        print("atheris available:", covfuzz.ensure_atheris())
         print("setup ok")
         return 0
     if argv[0] == "selftest":
